@@ -6,6 +6,7 @@ package main
 import (
 	"fmt"
 	"go/types"
+	"os"
 	"strings"
 
 	"golang.org/x/tools/go/ssa"
@@ -174,6 +175,13 @@ func (ex *Exec) harnessAPI(fr *frame, name string, args []Value) (Value, bool) {
 	case "vSymbolic":
 		return tt.Bool(true), true
 	case "vObserve":
+		if os.Getenv("SYMGO_OBSERVE") != "" {
+			var sb strings.Builder
+			for _, a := range variadic(args[1]) {
+				sb.WriteString(" " + describeValue(a, 0))
+			}
+			fmt.Fprintf(os.Stderr, "OBSERVE %s:%s\n", ex.concStr(args[0], "label"), sb.String())
+		}
 		return nil, true
 	case "vEnd":
 		panic(&pathEnd{reason: "done"})
@@ -199,6 +207,12 @@ func (ex *Exec) harnessAPI(fr *frame, name string, args []Value) (Value, bool) {
 		return nil, true
 	case "vRandCalls":
 		return tt.BV(64, uint64(ex.randCalls)), true
+	case "vRandBytes":
+		i := ex.concInt(args[0], "vRandBytes call index")
+		if i < 1 || i > len(ex.randLog) {
+			return Slice{}, true
+		}
+		return ex.byteSlice(ex.randLog[i-1]), true
 	}
 	return nil, false
 }
@@ -504,6 +518,7 @@ func init() {
 				s.data[i] = ts[i]
 			}
 			ex.draws = append(ex.draws, Draw{Kind: "rand", N: len(ts), terms: ts})
+			ex.randLog = append(ex.randLog, ts)
 			return Tuple{ex.tt.BV(64, uint64(len(ts))), nilErr()}
 		},
 		"math.Float64bits": func(ex *Exec, fr *frame, args []Value) Value {
@@ -580,4 +595,56 @@ func (ex *Exec) newCBC(fr *frame, enc bool, args []Value) Value {
 			val: Iface{t: types.Typ[types.String], v: "cipher.NewCBCEncrypter: IV length must equal block size"}})
 	}
 	return Iface{t: ex.eng.namedType("crypto/cipher", "cbcEncrypter", true), v: &CBCObj{enc: enc, key: co.key, iv: append([]*Term{}, iv...)}}
+}
+
+func describeValue(v Value, depth int) string {
+	if depth > 3 {
+		return "..."
+	}
+	switch x := v.(type) {
+	case *Term:
+		if x.IsConst() {
+			return constStr(x)
+		}
+		b := x.ref()
+		if x.op != OVar {
+			bd := x.body()
+			if len(bd) > 80 {
+				bd = bd[:80] + "..."
+			}
+			b += "=" + bd
+		}
+		return b
+	case Iface:
+		if x.t == nil {
+			return "nil-iface"
+		}
+		return "iface(" + typeString(x.t) + ":" + describeValue(x.v, depth+1) + ")"
+	case Slice:
+		var parts []string
+		for i, e := range x.data {
+			if i > 70 {
+				parts = append(parts, "...")
+				break
+			}
+			parts = append(parts, describeValue(e, depth+1))
+		}
+		return fmt.Sprintf("slice[%d]{%s}", len(x.data), strings.Join(parts, ","))
+	case string:
+		return fmt.Sprintf("%q", x)
+	case *Value:
+		if x == nil {
+			return "nil-ptr"
+		}
+		return "&" + describeValue(*x, depth+1)
+	case Struct:
+		var parts []string
+		for _, e := range x {
+			parts = append(parts, describeValue(e, depth+1))
+		}
+		return "{" + strings.Join(parts, ",") + "}"
+	case *OpaqueStr:
+		return "fmt(" + x.format + ")"
+	}
+	return fmt.Sprintf("%T", v)
 }
